@@ -38,6 +38,8 @@ def load_runs(out_dir: Path, *, seed: int, keep_every: int = 1, max_runs: int | 
 
 
 def natoms_of(run):
+    if "chain" in run:
+        return natoms_of_chain(run)
     m = 0
     for s in run["srcs"] + run["exp"]["srcs"]:
         for e in s["e"]:
@@ -85,33 +87,28 @@ def session_run(text: str, F, rng, mode=None):
         shutil.rmtree(d, ignore_errors=True)
 
 
-def replay_one(run, seed: int, driver=None):
-    """Concretise, execute against the real code, abstract, compare.  Returns (mismatches, info)."""
-    from . import inline_driver, render_core
-
-    rng = random.Random("%s|%s" % (run["id"], seed))
-    ops, srcs, prog, exp = run["ops"], run["srcs"], run["prog"], run["exp"]
-    beta = render_core.Beta(rng, max(natoms_of(run), 1), ops, render_core.needs_order(ops, prog))
-    imp = bool(exp.get("imp", False))
-    text = render_core.render(ops, srcs, prog, beta, imp, rng)
-    F = [CATS[c] for c in exp["F"]]
+def execute(text, F, driver, rng):
+    from . import inline_driver
     if driver == "session":
-        obs = session_run(text, F, rng)
-    else:
-        obs = inline_driver.run_session({"test_case.py": text}, F)
+        return session_run(text, F, rng)
+    return inline_driver.run_session({"test_case.py": text}, F)
+
+
+def compare(ops, srcs, prog, beta, text, exp, obs, driver, F, run_id):
+    """all clauses for one executed session: `text` is the module before the session, `srcs` the abstract
+    sources before it, `exp` the specification's prediction, `obs` what the implementation did"""
+    from . import inline_driver, render_core
     mism = []
-    info = {"beta": beta.name, "F": F, "imp": imp, "driver": driver or "inline"}
 
     def mm(clause, props, detail):
-        mism.append({"clause": clause, "props": props, "detail": detail, "run": run["id"],
-                     "F": F, "ops": ops})
+        mism.append({"clause": clause, "props": props, "detail": detail, "run": run_id, "F": F, "ops": ops})
 
     if obs.get("import_error"):
         mm("import", ["C18"], obs["import_error"])
-        return mism, info, text, obs
+        return mism
     if obs.get("finish_error"):
         mm("finish", ["C18"], obs["finish_error"][:2])
-        return mism, info, text, obs
+        return mism
     # --- results of the statements
     got = {}
     for t, j, out in obs["log"]:
@@ -120,20 +117,27 @@ def replay_one(run, seed: int, driver=None):
         e = exp["res"][ti - 1]
         g = got.get(ti, [])
         # the spec logs "-" for evaluate-only statements
-        g = ["-" if prog[ti - 1][j]["op"] == "none" and x == "T" else x for j, x in enumerate(g)]
+        g = ["-" if j < len(test) and test[j]["op"] == "none" and x == "T" else x for j, x in enumerate(g)]
         if g != e:
             te = any(x == "TE" for x in e) or any(x == "TE" for x in g)
             if not F:
                 mm("res", ["C06"], {"test": ti, "exp": e, "got": g})
             else:
                 mm("res", (["C06"] if te else []) + ["C07", "C02"], {"test": ti, "exp": e, "got": g})
-    # --- test verdicts (what the plugin's fixture would report)
+    # --- test verdicts (counters as the plugin's fixture evaluates them / pytest outcomes)
     for ti, tr in enumerate(obs["tests"], 1):
         failed = tr["exc"] is not None or tr["missing"] > 0 or tr["incorrect"] > 0
         if ti - 1 < len(exp["failed"]) and failed != exp["failed"][ti - 1]:
             mm("failed", ["C07"], {"test": ti, "exp": exp["failed"][ti - 1], "got": failed,
                                    "exc": tr["exc"], "missing": tr["missing"], "incorrect": tr["incorrect"],
                                    "spec_miss": exp["miss"][ti - 1], "spec_inc": exp["inc"][ti - 1]})
+    if driver == "session":
+        # exit status of the session: non-zero iff some test failed or errored
+        exp_rc = 1 if any(exp["failed"]) else 0
+        if obs["rc"] != exp_rc:
+            mm("rc", ["C07"], {"exp": exp_rc, "got": obs["rc"], "args": obs["args"]})
+        if len(obs["tests"]) != len(prog):
+            mm("tests-lost", ["C07"], {"exp": len(prog), "got": len(obs["tests"])})
     # --- pending categories per site
     orig = inline_driver.snapshot_args(text)
     line_to_site = {"test_case.py:%d:%d" % (l, c): i for i, (l, c, _, _) in enumerate(orig, 1)}
@@ -143,13 +147,6 @@ def replay_one(run, seed: int, driver=None):
             pend[line_to_site[key]] = cats
         else:
             mm("site-key", ["C14"], {"key": key})
-    if driver == "session":
-        # exit status of the session: non-zero iff some test failed or errored
-        exp_rc = 1 if any(exp["failed"]) else 0
-        if obs["rc"] != exp_rc:
-            mm("rc", ["C07"], {"exp": exp_rc, "got": obs["rc"], "args": obs["args"]})
-        if len(obs["tests"]) != len(prog):
-            mm("tests-lost", ["C07"], {"exp": len(prog), "got": len(obs["tests"])})
     for i in range(1, len(ops) + 1):
         if obs["sites"] is None:
             break
@@ -162,25 +159,102 @@ def replay_one(run, seed: int, driver=None):
         new = inline_driver.snapshot_args(new_text)
     except SyntaxError as e:
         mm("syntax", ["C03"], str(e))
-        return mism, info, text, obs
+        return mism
     if len(new) != len(ops):
         mm("sites-lost", ["C03"], {"exp": len(ops), "got": len(new)})
-        return mism, info, text, obs
+        return mism
+    from . import c03lib
+    if not c03lib.outside_preserved(text, new_text):
+        # a formatter-clean file may be re-formatted as a whole: then the syntax tree outside must be identical
+        if c03lib.masked_dump(text) != c03lib.masked_dump(new_text) or not _black_clean(text):
+            mm("outside", ["C03"], {"orig": text, "new": new_text})
+
+    def norm(x):
+        return {"def": x["def"], "e": [dict(k=y["k"], v=y["v"], canon=y["canon"]) for y in x["e"]]}
     for i, op in enumerate(ops, 1):
         a = render_core.alpha_src(beta, op, new[i - 1][3])
-        e = exp["srcs"][i - 1]
-        e = {"def": e["def"], "e": [dict(k=x["k"], v=x["v"], canon=x["canon"]) for x in e["e"]]}
+        e = norm(exp["srcs"][i - 1])
         if a != e:
             props = ["C05"]
-            if e == {"def": srcs[i - 1]["def"], "e": [dict(k=x["k"], v=x["v"], canon=x["canon"]) for x in srcs[i - 1]["e"]]}:
+            if e == norm(srcs[i - 1]):
                 props.append("C04")      # nothing approved for this site, yet it changed
             if {"create", "fix"} <= set(F):
                 props.append("C02")
             if not srcs[i - 1]["def"] and "create" in F:
                 props.append("C01")
             mm("newsrc", props, {"site": i, "exp": e, "got": a, "arg": new[i - 1][2]})
-    info["nontrivial"] = bool(F) and new_text != text
+    return mism
+
+
+def _black_clean(text):
+    try:
+        import black
+        return black.format_str(text, mode=black.FileMode()) == text
+    except Exception:  # noqa
+        return False
+
+
+def prepare(run, seed):
+    from . import render_core
+    rng = random.Random("%s|%s" % (run["id"], seed))
+    ops, prog = run["ops"], run["prog"]
+    beta = render_core.Beta(rng, max(natoms_of(run), 1), ops, render_core.needs_order(ops, prog))
+    return rng, beta
+
+
+def replay_one(run, seed: int, driver=None):
+    """Concretise, execute against the real code, abstract, compare.  Returns (mismatches, info, text, obs)."""
+    from . import render_core
+    rng, beta = prepare(run, seed)
+    ops, srcs, prog, exp = run["ops"], run["srcs"], run["prog"], run["exp"]
+    imp = bool(exp.get("imp", False))
+    text = render_core.render(ops, srcs, prog, beta, imp, rng)
+    F = [CATS[c] for c in exp["F"]]
+    obs = execute(text, F, driver, rng)
+    info = {"beta": beta.name, "F": F, "imp": imp, "driver": driver or "inline"}
+    mism = compare(ops, srcs, prog, beta, text, exp, obs, driver, F, run["id"])
     return mism, info, text, obs
+
+
+def replay_chain(run, seed: int, driver=None):
+    """A history of sessions: every session starts from the text the previous one really wrote.
+    run["chain"] = list of predicted sessions.  Returns (mismatches, info, texts)."""
+    from . import render_core
+    rng, beta = prepare(run, seed)
+    ops, srcs, prog = run["ops"], run["srcs"], run["prog"]
+    chain = run["chain"]
+    imp = bool(chain[0].get("imp", False)) if chain else False
+    text = render_core.render(ops, srcs, prog, beta, imp, rng)
+    texts = [text]
+    mism = []
+    cur = srcs
+    Fs = []
+    for k, exp in enumerate(chain, 1):
+        F = [CATS[c] for c in exp["F"]]
+        Fs.append(F)
+        obs = execute(text, F, driver, rng)
+        ms = compare(ops, cur, prog, beta, text, exp, obs, driver, F, run["id"])
+        for m in ms:
+            m["step"] = k
+        mism += ms
+        if any(m["clause"] in ("import", "finish", "syntax", "sites-lost") for m in ms):
+            break
+        text = obs["files"]["test_case.py"]
+        texts.append(text)
+        cur = exp["srcs"]
+    info = {"beta": beta.name, "Fs": Fs, "imp": imp, "driver": driver or "inline"}
+    return mism, info, texts
+
+
+def natoms_of_chain(run):
+    m = 0
+    for s in run["srcs"] + [x for c in run["chain"] for x in c["srcs"]]:
+        for e in s["e"]:
+            m = max(m, e["v"])
+    for t in run["prog"]:
+        for s in t:
+            m = max(m, s["x"])
+    return m + 1
 
 
 def _worker(args):
@@ -199,4 +273,101 @@ def _worker(args):
         except Exception as e:  # machinery failure, reported as such
             import traceback
             out.append({"id": run["id"], "error": traceback.format_exc()[-2000:]})
+    return out
+
+
+def load_chain8(out_dir: Path, *, seed: int, keep_every: int = 1):
+    runs = []
+    for f in sorted(out_dir.glob("group_*.json")):
+        g = json.loads(f.read_text())
+        for ci, c in enumerate(g["cases"]):
+            for k, chain in enumerate(c["chains"]):
+                key = "%s|%d|%d|%s" % (f.name, ci, k, seed)
+                h = zlib.crc32(key.encode())
+                if keep_every > 1 and h % keep_every != 0:
+                    continue
+                runs.append({"ops": g["ops"], "srcs": g["srcs"], "prog": c["prog"], "chain": chain,
+                             "id": "%s#%d#c%d" % (f.stem, ci, k), "h": h})
+    runs.sort(key=lambda r: r["h"])
+    return runs
+
+
+def load_chain9(out_dir: Path, *, seed: int, keep_every: int = 1):
+    cases = []
+    for f in sorted(out_dir.glob("group_*.json")):
+        g = json.loads(f.read_text())
+        for ci, c in enumerate(g["cases"]):
+            key = "%s|%d|%s" % (f.name, ci, seed)
+            h = zlib.crc32(key.encode())
+            if keep_every > 1 and h % keep_every != 0:
+                continue
+            cases.append({"ops": g["ops"], "srcs": g["srcs"], "prog": c["prog"], "chains": c["chains"],
+                          "atonce": c["atonce"], "confluent": c["confluent"], "final": c["final"],
+                          "id": "%s#%d" % (f.stem, ci), "h": h})
+    cases.sort(key=lambda r: r["h"])
+    return cases
+
+
+def _worker_chain8(args):
+    runs, seed = args[0], args[1]
+    driver = args[2] if len(args) > 2 else None
+    import contextlib
+    import io
+    out = []
+    for run in runs:
+        try:
+            with contextlib.redirect_stderr(io.StringIO()):
+                mism, info, texts = replay_chain(run, seed, driver)
+            for m in mism:
+                if m.get("step", 1) >= 2 and "C08" not in m["props"]:
+                    m["props"] = m["props"] + ["C08"]
+            # the direct no-op clause: the second of two identical sessions changes no byte
+            if len(texts) == 3:
+                Fs = info["Fs"]
+                if texts[2] != texts[1]:
+                    mism.append({"clause": "second-run-writes", "props": ["C08"], "run": run["id"], "F": Fs[1],
+                                 "ops": run["ops"], "detail": {"Fs": Fs}})
+            out.append({"id": run["id"], "mism": mism, "info": info, "texts": texts if mism else None})
+        except Exception:  # noqa
+            import traceback
+            out.append({"id": run["id"], "error": traceback.format_exc()[-2000:]})
+    return out
+
+
+def _worker_chain9(args):
+    cases, seed = args[0], args[1]
+    driver = args[2] if len(args) > 2 else None
+    import ast
+    import contextlib
+    import io
+    out = []
+    for case in cases:
+        try:
+            finals = []
+            mism = []
+            allc = [("atonce", case["atonce"])] + [("path%d" % i, c) for i, c in enumerate(case["chains"])]
+            for name, chain in allc:
+                run = dict(case, chain=chain)
+                with contextlib.redirect_stderr(io.StringIO()):
+                    ms, info, texts = replay_chain(run, seed, driver)
+                for m in ms:
+                    m["path"] = name
+                mism += ms
+                try:
+                    finals.append((name, info["Fs"], ast.dump(ast.parse(texts[-1])), texts[-1]))
+                except SyntaxError:
+                    finals.append((name, info["Fs"], "syntax-error", texts[-1]))
+            ref = finals[0]
+            for name, Fs, dump, text in finals[1:]:
+                if dump != ref[2]:
+                    mism.append({"clause": "order-matters", "props": ["C09"], "run": case["id"], "F": [],
+                                 "ops": case["ops"],
+                                 "detail": {"spec_confluent": case["confluent"], "order": Fs, "atonce": ref[1],
+                                            "final_in_order": text, "final_at_once": ref[3]}})
+                    break
+            out.append({"id": case["id"], "mism": mism, "npaths": len(case["chains"]),
+                        "texts": [finals[0][3]] if mism else None, "beta": info["beta"]})
+        except Exception:  # noqa
+            import traceback
+            out.append({"id": case["id"], "error": traceback.format_exc()[-2000:]})
     return out
